@@ -193,3 +193,123 @@ func cachedIndexRule(c *Ctx, rule string, pred func(string) bool) {
 	}
 	c.Note("%s: %d uses of a remembered index into a State slice", rule, n)
 }
+
+// unitArithmeticRule: Storage splits an address into (unit base, offset) by
+// division/remainder with the unit size. A bit mask (addr & (unitSize-1)) equals
+// the remainder only when the unit size is a power of two, which nothing
+// enforces: NewStorageWithUnitSize accepts any size.
+func unitArithmeticRule(c *Ctx, rule string) {
+	p := c.P
+	us := c.field(rule, "mem", "Storage", "unitSize")
+	if us == nil {
+		return
+	}
+	n := 0
+	for _, fn := range p.SrcFuncs(func(pp string) bool { return pp == pkgPath("mem") }) {
+		usesUnit := false
+		bad := ""
+		for _, b := range fn.Blocks {
+			for _, in := range b.Instrs {
+				bo, ok := in.(*ssa.BinOp)
+				if !ok {
+					continue
+				}
+				readsUnit := func(v ssa.Value) bool {
+					for y := range DataSlice(fn, v) {
+						if u, isU := y.(*ssa.UnOp); isU {
+							if f := FieldOf(u.X); f != nil && sameObj(f, us) {
+								return true
+							}
+						}
+					}
+					return false
+				}
+				switch bo.Op {
+				case token.REM, token.QUO:
+					if readsUnit(bo.Y) {
+						usesUnit = true
+					}
+				case token.AND, token.AND_NOT, token.SHL, token.SHR:
+					if readsUnit(bo.Y) || readsUnit(bo.X) {
+						bad = p.Rel(bo.Pos())
+					}
+				}
+			}
+		}
+		if !usesUnit && bad == "" {
+			continue
+		}
+		n++
+		c.Check(bad == "", rule, SSAFuncKey(fn), fn.Pos(), "unit base and offset are computed by division and remainder",
+			"the storage's unit arithmetic uses a mask or shift derived from unitSize ("+bad+"): that equals the quotient/remainder only for power-of-two unit sizes, which the constructor does not require; for any other size bytes are stored in slots that a read at another offset never visits")
+	}
+	c.Floor(rule, 1)
+}
+
+// lookupStatelessRule: fn (a lookup that must be a pure function of the object's
+// exported configuration) stores nothing into its receiver.
+func lookupStatelessRule(c *Ctx, rule, pkg, recv, name, why string) {
+	p := c.P
+	f := c.fn(rule, pkg, recv, name)
+	if f == nil {
+		return
+	}
+	fn := p.SSAFunc(f)
+	bad := ""
+	if fn != nil && len(fn.Params) > 0 {
+		r := ssa.Value(fn.Params[0])
+		for _, b := range fn.Blocks {
+			for _, in := range b.Instrs {
+				switch x := in.(type) {
+				case *ssa.Store:
+					if memRoot(x.Addr) == r {
+						bad = p.Rel(x.Pos())
+					}
+				case *ssa.MapUpdate:
+					if memRoot(x.Map) == r {
+						bad = p.Rel(x.Pos())
+					}
+				}
+			}
+		}
+	}
+	c.Check(fn != nil && bad == "", rule, pkg+"."+recv+"."+name, p.Decl(f).Pos(), "the lookup stores nothing into its receiver", "the lookup caches something in its receiver (store at "+bad+"): "+why)
+}
+
+// sweepExhaustiveRule: the loops of fn end only by exhaustion (no return or
+// break from inside a loop).
+func sweepExhaustiveRule(c *Ctx, rule, pkg, recv, name, why string) {
+	p := c.P
+	f := c.fn(rule, pkg, recv, name)
+	if f == nil {
+		return
+	}
+	fn := p.SSAFunc(f)
+	if fn == nil {
+		c.Unknown(rule, pkg+"."+recv+"."+name, p.Decl(f).Pos(), "no SSA body")
+		return
+	}
+	loops := loopsOf(fn)
+	bad := ""
+	for _, l := range loops {
+		for b := range l.blocks {
+			for _, s := range b.Succs {
+				if l.blocks[s] || b == l.header || endsInPanic(s) {
+					continue
+				}
+				// an exit edge from inside the body (not the header's own exhaustion test);
+				// exits of an inner loop's header into the enclosing loop are fine
+				inner := false
+				for _, l2 := range loops {
+					if l2 != l && l2.header == b && l.blocks[l2.header] {
+						inner = true
+					}
+				}
+				if !inner {
+					bad = posOfBlock(fn, b)
+				}
+			}
+		}
+	}
+	c.Check(len(loops) > 0 && bad == "", rule, pkg+"."+recv+"."+name, p.Decl(f).Pos(), "every loop runs to exhaustion", "a loop of the sweep can be left early ("+bad+"): "+why)
+}
